@@ -239,7 +239,7 @@ def run(tier, seed):
         with chaingen.Env(period=5000) as env:
             tg = chaingen.TreeGen(env, keys, rng)
             n = tg.genesis
-            H = 560 if tier == 'quick' else rng.choice([1100, 2300])
+            H = 1300 if tier == 'quick' else rng.choice([1300, 2400, 4700])
             for h in range(1, H + 1):
                 par = n
                 n = tg.extend(par, txs=[], fees=0, dt=60)
@@ -247,15 +247,37 @@ def run(tier, seed):
                 if h % 7 == probe:
                     tg.extend(par, txs=[], fees=0, dt=62)
             path = os.path.join(scratch, 'c08-large-%d.db' % probe)
-            with contextlib.redirect_stdout(io.StringIO()):
-                st = blockstore.BlockStore(path)
-                nodes = tg.nodes[1:]
-                for i in range(0, len(nodes), 400):
-                    st.write_blocks_to_disk([nd.block for nd in nodes[i:i + 400]])
-                st.close()
-                st = blockstore.BlockStore(path)
-                back = list(st.read_blocks_from_disk())
-                st.close()
+            back = []
+            try:
+                with contextlib.redirect_stdout(io.StringIO()):
+                    st = blockstore.BlockStore(path)
+                    nodes = tg.nodes[1:]
+                    late = nodes[-1]
+                    nodes = nodes[:-1]
+                    # the whole bulk (2,600+ blocks) sits in the write buffer and goes out in ONE flush, as after a long download
+                    for nd in nodes:
+                        st.add_block_to_buffer(nd.block)
+                    st.flush_blocks_to_disk()
+                    st.close()
+                    st = blockstore.BlockStore(path)
+                    # a reload is in progress (the reader has handed out a few blocks) when one more block is flushed through the
+                    # same store object: the reload still returns everything that was stored when it began
+                    it = st.read_blocks_from_disk()
+                    back = [next(it) for _ in range(5)]
+                    st.add_block_to_buffer(late.block)
+                    st.flush_blocks_to_disk()
+                    back += list(it)
+                    if late.id not in set(spec.sha256d(b.header.serialize()) for b in back):
+                        back += [b for b in st.read_blocks_from_disk() if spec.sha256d(b.header.serialize()) == late.id]
+                    st.close()
+            except Exception as e:
+                ck.violation('store-does-not-return-what-was-written', 'writing %d buffered blocks in one flush and reading them back '
+                             'raised %s: %s' % (len(tg.nodes) - 1, type(e).__name__, str(e)[:120]),
+                             {'large': True, 'heights': H, 'probe': probe, 'seed': seed})
+                try:
+                    st.close()
+                except Exception:
+                    pass
             os.unlink(path)
             want_ids = sorted(nd.id for nd in tg.nodes)
             got_ids = sorted(spec.sha256d(b.header.serialize()) for b in back)
